@@ -76,8 +76,15 @@ fn history(s: &Session, seed: u64, len: usize, ch: &mut Chooser) -> Result<Strin
         if current != *challenges.last().unwrap() {
             return Err(format!("attempt {attempt}: challenge on offer changed without an attempt"));
         }
-        // the honest client's values for the challenge currently on offer (fresh client data from the seam)
-        let cdraw = fresh16(seed, &s.name, attempt, "client");
+        // the honest client's values for the challenge currently on offer (fresh client data from the seam; as a deviation
+        // the client's RNG happens to answer with the very challenge the server offers, or with all zeros)
+        let cdraw = match ch.pick(3, "client-rng-answer") {
+            0 => fresh16(seed, &s.name, attempt, "client"),
+            1 => current,
+            _ => [0u8; 16],
+        };
+        // (the script goes on with fresh bytes in case the client refuses such an answer and draws again)
+        let cdraw = { let mut v = cdraw.to_vec(); v.extend_from_slice(&fresh16(seed, &s.name, attempt, "client-again")); v };
         let (honest, used, _) = with_script(&cdraw, || s.client.calculate_reconnect_values(current));
         let honest = honest.map_err(|m| format!("attempt {attempt}: calculate_reconnect_values panicked: {m}"))?;
         let _ = used; // how the client derives its challenge from the RNG is C15's business
@@ -98,7 +105,7 @@ fn history(s: &Session, seed: u64, len: usize, ch: &mut Chooser) -> Result<Strin
         } else if c <= n_replay + n_stale {
             let j = c - n_replay - 1;
             let st = s.client.clone();
-            let (r, _, _) = with_script(&cdraw, || st.calculate_reconnect_values(challenges[j]));
+            let (r, _, _) = with_script(&cdraw[..], || st.calculate_reconnect_values(challenges[j]));
             let r = r.map_err(|m| format!("panic: {m}"))?;
             (r.challenge_data, r.proof, format!("stale-challenge#{j}"))
         } else if c <= n_replay + n_stale + 40 {
